@@ -5,6 +5,7 @@ package main
 import (
 	"encoding/json"
 	"fmt"
+	"github.com/makiuchi-d/gozxing/common"
 	"hash/crc32"
 	"time"
 
@@ -186,11 +187,11 @@ func fillDefaults(op string, o map[string]interface{}) {
 		def = map[string]interface{}{"err": 0, "cw": []int{}, "cwerr": 0, "w": 0, "h": 0, "rows": [][]int{}}
 	case "hl":
 		def = map[string]interface{}{"cwerr": 0, "cw": []int{}, "dtext": []int{}, "derr": "skipped", "werr": 0, "w": 0, "h": 0,
-			"rtext": []int{}, "rerr": "skipped", "rfmt": 0, "utf8": []int{}, "cwmsg": ""}
+			"rtext": []int{}, "rerr": "skipped", "rfmt": 0, "utf8": []int{}, "cwmsg": "", "mtext": []int{}, "merr": "skipped", "btext": []int{}, "berr": "skipped"}
 	case "ecc":
 		def = map[string]interface{}{"err": 0, "all": []int{}}
 	case "place":
-		def = map[string]interface{}{"rows": [][]int{}}
+		def = map[string]interface{}{"rows": [][]int{}, "prev_then": 0, "prev_now": 0}
 	case "lookup":
 		def = map[string]interface{}{"err": 0, "w": 0, "h": 0, "cap": 0, "ecw": 0, "dw": 0, "dh": 0, "rw": 0, "rh": 0, "nblk": 0, "blkd": []int{}, "blke": []int{}, "total": 0}
 	case "dmg":
@@ -248,6 +249,34 @@ func doHL(e *in, o map[string]interface{}) {
 			return
 		}
 		o["werr"], o["w"], o["h"] = 0, bm.GetWidth(), bm.GetHeight()
+		if e.Img[0] == 0 && e.Img[1] == 0 {
+			// requested size 0x0: the writer's matrix is the symbol itself (one pixel per module) - the two module-matrix entry
+			// points of the decoder: Decode(*BitMatrix) and DecodeBoolMap([][]bool)
+			one := func(key string, f func() (*common.DecoderResult, error)) {
+				r, err := f()
+				switch {
+				case err == nil && r == nil:
+					o[key+"err"] = "neither"
+				case err != nil:
+					o[key+"err"] = kind(err)
+				default:
+					o[key+"err"], o[key+"text"] = "", hlib.BytesToInts(r.GetText())
+				}
+			}
+			cp, _ := gozxing.NewBitMatrix(bm.GetWidth(), bm.GetHeight())
+			bools := make([][]bool, bm.GetHeight())
+			for y := range bools {
+				bools[y] = make([]bool, bm.GetWidth())
+				for x := range bools[y] {
+					if bm.Get(x, y) {
+						bools[y][x] = true
+						cp.Set(x, y)
+					}
+				}
+			}
+			one("m", func() (*common.DecoderResult, error) { return sharedDecoder.Decode(cp) })
+			one("b", func() (*common.DecoderResult, error) { return sharedDecoder.DecodeBoolMap(bools) })
+		}
 		bmp, _ := gozxing.NewBinaryBitmapFromImage(bm)
 		res, rerr := datamatrix.NewDataMatrixReader().Decode(bmp, map[gozxing.DecodeHintType]interface{}{gozxing.DecodeHintType_PURE_BARCODE: true})
 		switch {
@@ -283,9 +312,34 @@ func doEcc(e *in, o map[string]interface{}) {
 	o["err"], o["all"] = 0, hlib.BytesToInts(string(all))
 }
 
+// the placement of the previous "place" event stays alive: a later placement must not change what it holds
+var prevPl *dmenc.DefaultPlacement
+var prevNc, prevNr int
+var prevThen uint32
+
+func placeDigest(pl *dmenc.DefaultPlacement, nc, nr int) uint32 {
+	h := crc32.NewIEEE()
+	for y := 0; y < nr; y++ {
+		for x := 0; x < nc; x++ {
+			if pl.GetBit(x, y) {
+				h.Write([]byte{1})
+			} else {
+				h.Write([]byte{0})
+			}
+		}
+	}
+	return h.Sum32()
+}
+
 func doPlace(e *in, o map[string]interface{}) {
 	pl := dmenc.NewDefaultPlacement(hlib.IntsToBytes(e.Cw), e.Nc, e.Nr)
 	pl.Place()
+	o["prev_then"], o["prev_now"] = 0, 0
+	if prevPl != nil {
+		now := placeDigest(prevPl, prevNc, prevNr)
+		o["prev_then"], o["prev_now"] = []int{int(prevThen >> 16), int(prevThen & 0xFFFF)}, []int{int(now >> 16), int(now & 0xFFFF)}
+	}
+	prevPl, prevNc, prevNr, prevThen = pl, e.Nc, e.Nr, placeDigest(pl, e.Nc, e.Nr)
 	rows := make([][]int, e.Nr)
 	for y := range rows {
 		yy := y
